@@ -96,8 +96,9 @@ theorem upd_ne_of {α : Type} {f : Nat → α} {t u : Nat} {v w : α} (h : upd f
 
 /-- a thread that is neither inside `wait()` nor the owner changes its position, program, log -/
 theorem pa_local {s : PState} (h : PA s) {t : Nat} (hnp : ∀ c, ¬ PRole s.n s.pc s.prog t c) (hno : s.owner ≠ some t)
-    (p : PPc) (hp : p ≠ .stopNotify) (prog' : Nat → List POp) (h2 : ∀ x, x ≠ t → prog' x = s.prog x) (log' : List PEv) :
-    PA { s with pc := upd s.pc t p, prog := prog', log := log' } := by
+    (p : PPc) (hp : p ≠ .stopNotify) (prog' : Nat → List POp) (h2 : ∀ x, x ≠ t → prog' x = s.prog x) (log' : List PEv)
+    {gate' : Bool} :
+    PA { s with gate := gate', pc := upd s.pc t p, prog := prog', log := log' } := by
   have hot : ∀ u, s.owner = some u → u ≠ t := by rintro u hu rfl; exact hno hu
   refine ⟨h.rerole hnp _ prog' (fun x hx => upd_other _ _ _ _ hx) h2, h.sigE, h.sigF, h.bnd, ?_, ?_, ?_, ?_⟩
   · intro hr
@@ -140,6 +141,7 @@ theorem pa_step {s s' : PState} (h : PA s) (hs : PStep s s') : PA s' := by
           refine ⟨hpc, Or.inl ⟨?_, id, rest, hp⟩⟩
           simpa [PState.inline, PState.g_run_g1] using hl
         · rename_i rest hp; exact ⟨hpc, Or.inr ⟨rest, hp⟩⟩
+        · cases hl
         · cases hl
       · cases hl
   | spur t c ht =>
@@ -282,13 +284,31 @@ theorem pa_step {s s' : PState} (h : PA s) (hs : PStep s s') : PA s' := by
       · intro hr
         have hW := stopped_of_owner_not_stop h ho hnostop hr
         exact Or.inl hW
-  | exec t x hpc =>
+  | exec t x p g hpc hp =>
+    refine pa_local h ?_ ?_ p (by rcases hp with rfl | ⟨rfl, _⟩ <;> (intro hc; cases hc)) s.prog (fun _ _ => rfl) _
+    · intro c hc; cases c
+      · have : s.pc t = .wTake := hc; rw [hpc] at this; cases this
+      · have : s.pc t = .idle := hc.1; rw [hpc] at this; cases this
+    · intro ho
+      rcases h.ownOk t ho with h1 | h1 | ⟨h1, _⟩ <;> rw [hpc] at h1 <;> cases h1
+  | pass t x hpc hg =>
     refine pa_local h ?_ ?_ .wTest (by intro hc; cases hc) s.prog (fun _ _ => rfl) _
     · intro c hc; cases c
       · have : s.pc t = .wTake := hc; rw [hpc] at this; cases this
       · have : s.pc t = .idle := hc.1; rw [hpc] at this; cases this
     · intro ho
       rcases h.ownOk t ho with h1 | h1 | ⟨h1, _⟩ <;> rw [hpc] at h1 <;> cases h1
+  | openGate t rest hpc hp =>
+    refine pa_local h ?_ ?_ .idle (by intro hc; cases hc) _ (fun x hx => upd_other _ _ _ _ hx) _
+    · intro c hc; cases c
+      · have : s.pc t = .wTake := hc; rw [hpc] at this; cases this
+      · obtain ⟨_, _, id, r, hr⟩ := hc; rw [hp] at hr; cases hr
+    · intro ho
+      rcases h.ownOk t ho with h1 | h1 | ⟨_, ⟨_, id, r, h1⟩ | ⟨r, h1⟩⟩
+      · rw [hpc] at h1; cases h1
+      · rw [hpc] at h1; cases h1
+      · rw [hp] at h1; cases h1
+      · rw [hp] at h1; cases h1
   | runInline t id rest hpc hp hn =>
     refine pa_local h ?_ ?_ .idle (by intro hc; cases hc) _ (fun x hx => upd_other _ _ _ _ hx) _
     · intro c hc; cases c
